@@ -1,4 +1,5 @@
 import WitnessVerif.Proofs.Frame
+import WitnessVerif.Proofs.BytesRun
 /-
 C02 — only checkpoints signed by the named log's key and origin are ever accepted.
 -/
@@ -67,5 +68,49 @@ theorem C02_other_origin_refused (l : LogInfo) (raw : Bytes) (n : Note.Note) (cp
   split
   · simp [hne]
   · rfl
+
+end C02
+
+/-! ### What acceptance means at byte level -/
+namespace C02
+open Wit
+
+/-- A checkpoint is stored or cosigned for a log ID only if the submitted bytes are
+    `text ++ "\n" ++ signature lines` where `text` ends in a newline, the verifier configured for that
+    ID accepts a signature (carried by a line with the verifier's name and key hash) over exactly `text`,
+    the first line of `text` is the origin configured for that ID, and the note that is stored and
+    returned has byte-identical text. -/
+theorem C02_accept_authentic (cfg : Cfg) (env : Env) (id : Bytes) (old : Nat) (nextRaw : Bytes) (proof : List Bytes)
+    (h : (update cfg env id old nextRaw proof).err = .none) :
+    ∃ l text sigs sig rest signed sigs',
+      cfg.find id = some l ∧
+      nextRaw = text ++ B.nl :: sigs ∧
+      l.verifier.verify text sig = true ∧
+      text = l.origin ++ B.nl :: rest ∧
+      (update cfg env id old nextRaw proof).set = some signed ∧
+      (update cfg env id old nextRaw proof).ret = some signed ∧
+      signed = text ++ B.nl :: sigs' := by
+  obtain ⟨l, next, nn, outs, signed, hfind, hparse, _, hsign, _, hret, hset, _⟩ := update_accepted cfg env id old nextRaw proof h
+  obtain ⟨hopen, ⟨s, hs, _, _⟩, hun, horigin⟩ := parse_spec l nextRaw next nn hparse
+  obtain ⟨hok, hver, sigs, hmsg⟩ := Note.open_spec nextRaw [l.verifier] nn hopen
+  obtain ⟨v, raw, hlk, _, hv⟩ := hver s hs
+  obtain ⟨hv', _, _⟩ := Note.lookup_singleton l.verifier v s.name s.hash hlk
+  subst hv'
+  obtain ⟨rest, hrest⟩ := Cp.unmarshal_origin nn.text next hun
+  obtain ⟨sigs', hsigned, _⟩ := Note.sign_split nn outs signed hok hsign
+  exact ⟨l, nn.text, sigs, raw.drop 4, rest, signed, sigs', hfind, hmsg, hv, by rw [← horigin]; exact hrest, hset, hret, hsigned⟩
+
+/-- signatures by any other key do not help: if the line carrying the configured verifier's name and
+    key hash does not verify, the request is refused — `Open` fails on it whatever else is signed -/
+theorem C02_needs_configured_key (l : LogInfo) (raw : Bytes) (h : (parse l raw).isSome) :
+    ∃ n s, Note.open raw [l.verifier] = .ok n ∧ s ∈ n.sigs ∧ s.name = l.verifier.name ∧ s.hash = l.verifier.hash ∧
+      Note.Verified [l.verifier] n.text s := by
+  cases hp : parse l raw with
+  | none => simp [hp] at h
+  | some pn =>
+    obtain ⟨cp, n⟩ := pn
+    obtain ⟨hopen, ⟨s, hs, h1, h2⟩, _, _⟩ := parse_spec l raw cp n hp
+    obtain ⟨_, hver, _⟩ := Note.open_spec raw [l.verifier] n hopen
+    exact ⟨n, s, hopen, hs, h2, h1, hver s hs⟩
 
 end C02
